@@ -144,6 +144,14 @@ Qed.
 Lemma cdiv_mono n m R : 0 < R -> n <= m -> cdiv n R <= cdiv m R.
 Proof. intros. unfold cdiv. apply N.div_le_mono; lia. Qed.
 
+Lemma cdiv_add_le a b R : 0 < R -> b <= R -> cdiv (a + b) R <= cdiv a R + 1.
+Proof.
+  intros HR Hb. unfold cdiv.
+  transitivity ((a + R - 1 + 1 * R) / R).
+  - apply N.div_le_mono; lia.
+  - rewrite N.div_add by lia. lia.
+Qed.
+
 Global Opaque cdiv.
 
 Lemma need_0 R : need 0 R = 1.
@@ -163,6 +171,22 @@ Qed.
 
 Lemma need_small n R : 0 < R -> 0 < n -> n <= R -> need n R = n + 1.
 Proof. intros. rewrite need_pos, cdiv_small by lia. lia. Qed.
+
+(* if a carry loop with f <= R rounds left and m + 1 elements to go had its budget, then after
+   losing the element in flight the remaining m still have their full headroom *)
+Lemma need_after_loss f m gl R :
+  0 < R -> 1 <= f -> f <= R ->
+  N.min f (m + 1) + (if f <? m + 1 then need (m + 1 - f) R else 0) <= gl ->
+  need m R <= gl.
+Proof.
+  intros HR Hf1 HfR Hb. destruct (N.ltb_spec f (m + 1)) as [Hlt|Hge].
+  - destruct (N.eq_dec m 0) as [->|Hm]; [cbn; lia|].
+    rewrite need_pos by lia. rewrite need_pos in Hb by lia.
+    pose proof (cdiv_add_le (m + 1 - f) (f - 1) R HR ltac:(lia)) as Hc.
+    replace (m + 1 - f + (f - 1)) with m in Hc by lia. lia.
+  - destruct (N.eq_dec m 0) as [->|Hm]; [cbn; lia|].
+    rewrite need_small by lia. lia.
+Qed.
 
 Lemma need_mono n m R : 0 < R -> n <= m -> need n R <= need m R.
 Proof.
